@@ -71,7 +71,9 @@ func normErr(err error) string {
 
 // c09Exercise drives the full public accessor chain on one blob. It returns an
 // outcome class and, when a panic escaped a public call, which call.
-func c09Exercise(b c09Blob) (outcome string, escaped string, readsAfterEnd int64) {
+// which selects the loader for "load" blobs: 0 = the format's own loader, 1 = autometa
+// (each chain is measured on its own: the laws are per call chain).
+func c09Exercise(b c09Blob, which int) (outcome string, escaped string, readsAfterEnd int64) {
 	var parts []string
 	chain := func(loader string) {
 		s := src.New(b.Data)
@@ -114,10 +116,9 @@ func c09Exercise(b c09Blob) (outcome string, escaped string, readsAfterEnd int64
 	}
 	switch b.Entry {
 	case "load":
-		if b.Format != "" {
+		if which == 0 && b.Format != "" {
 			chain(loaderFor(b.Format))
-		}
-		if escaped == "" {
+		} else {
 			chain("autometa")
 		}
 	case "icc":
@@ -166,24 +167,30 @@ func childC09(args []string) int {
 	prev := ms.TotalAlloc
 	do := func(i int) {
 		b := g.make(i)
-		fmt.Fprintf(w, "S %d\n", i)
-		w.Flush()
-		runtime.ReadMemStats(&ms)
-		prev = ms.TotalAlloc
-		c0 := threadCPU()
-		outcome, escaped, rae := c09Exercise(b)
-		c1 := threadCPU()
-		runtime.ReadMemStats(&ms)
-		alloc := ms.TotalAlloc - prev
-		if alloc > 256<<20 {
-			debug.FreeOSMemory()
+		chains := 1
+		if b.Entry == "load" && b.Format != "" {
+			chains = 2
 		}
-		rec := map[string]any{"i": i, "n": len(b.Data), "alloc": alloc, "cpu": c1 - c0, "out": outcome, "class": b.Class, "rae": rae}
-		if escaped != "" {
-			rec["escaped"] = escaped
+		for which := 0; which < chains; which++ {
+			fmt.Fprintf(w, "S %d\n", i)
+			w.Flush()
+			runtime.ReadMemStats(&ms)
+			prev = ms.TotalAlloc
+			c0 := threadCPU()
+			outcome, escaped, rae := c09Exercise(b, which)
+			c1 := threadCPU()
+			runtime.ReadMemStats(&ms)
+			alloc := ms.TotalAlloc - prev
+			if alloc > 256<<20 {
+				debug.FreeOSMemory()
+			}
+			rec := map[string]any{"i": i, "n": len(b.Data), "alloc": alloc, "cpu": c1 - c0, "out": outcome, "class": b.Class, "rae": rae, "last": which == chains-1}
+			if escaped != "" {
+				rec["escaped"] = escaped
+			}
+			js, _ := json.Marshal(rec)
+			fmt.Fprintf(w, "D %s\n", js)
 		}
-		js, _ := json.Marshal(rec)
-		fmt.Fprintf(w, "D %s\n", js)
 	}
 	if only >= 0 {
 		do(only)
@@ -611,6 +618,13 @@ func c09Crafted(rng *core.RNG) []c09Blob {
 		b, _ := sp.Build()
 		add("load", "PNG", b, fmt.Sprintf("deflate-bomb: %d zero bytes in a %d-byte PNG", n, len(b)))
 	}
+	// the same with a well-formed profile around the zeros, so that the accessor chain copies them once more
+	for _, n := range []int{1 << 20, 8 << 20} {
+		prof, _ := imggen.ICCSpec{Header: imggen.MinimalHeader(false), Tags: []imggen.ICCTag{{Sig: "desc", Data: imggen.TextDescription("bomb")}, {Sig: "A2B0", Data: make([]byte, n)}}}.Build()
+		sp := imggen.PNGSpec{W: 5, H: 7, Depth: 8, ColorType: 2, ICC: &imggen.PNGICC{Name: "z", Profile: prof, Level: 9}, IDAT: []byte{1}}
+		b, _ := sp.Build()
+		add("load", "PNG", b, fmt.Sprintf("deflate-bomb-structured: well-formed profile with a %d-byte zero tag in a %d-byte PNG", n, len(b)))
+	}
 	// tag table with many entries all pointing at one big block
 	{
 		var tags []imggen.ICCTag
@@ -955,15 +969,24 @@ func replayC09(stage string, raw json.RawMessage) (bool, string, error) {
 	runtime.ReadMemStats(&ms)
 	a0 := ms.TotalAlloc
 	c0 := threadCPU()
-	out, escaped, rae := c09Exercise(c09Blob{Entry: w.Entry, Format: w.Format, Data: data})
-	c1 := threadCPU()
-	runtime.ReadMemStats(&ms)
-	rec := c09Rec{N: len(data), Alloc: ms.TotalAlloc - a0, CPU: c1 - c0, Out: out, RAE: rae, Escaped: escaped}
-	kind, msg := c09Judge(rec)
-	if kind == "" {
-		msg = fmt.Sprintf("outcome %s, allocated %d bytes, %.3f s CPU for %d input bytes", out, rec.Alloc, float64(rec.CPU)/1e9, rec.N)
+	_ = a0
+	_ = c0
+	for which := 0; which < 2; which++ {
+		runtime.ReadMemStats(&ms)
+		a0 = ms.TotalAlloc
+		c0 = threadCPU()
+		out, escaped, rae := c09Exercise(c09Blob{Entry: w.Entry, Format: w.Format, Data: data}, which)
+		c1 := threadCPU()
+		runtime.ReadMemStats(&ms)
+		rec := c09Rec{N: len(data), Alloc: ms.TotalAlloc - a0, CPU: c1 - c0, Out: out, RAE: rae, Escaped: escaped}
+		if kind, msg := c09Judge(rec); kind != "" {
+			return true, msg, nil
+		}
+		if w.Entry != "load" || w.Format == "" {
+			break
+		}
 	}
-	return kind != "", msg, nil
+	return false, "both call chains within the laws", nil
 }
 
 func init() {
